@@ -172,8 +172,16 @@ def _render(index) -> bytes:
         lines.append('\t'.join([f'f{j}'] + [{'status': 'active', 'definition': f'filler {j}'}[c]
                                              for c in cols]))
     eol = index['eol']
+    if _blank_lines(index):
+        # blank lines list no ILI: one after the rows, one in the middle
+        lines.insert(1 + len(index['rows']) // 2, '')
+        lines.append('')
     text = eol.join(lines) + (eol if index['final_eol'] else '')
     return text.encode('utf-8')
+
+
+def _blank_lines(index) -> bool:
+    return bool(index['final_eol']) and len(index['rows']) % 2 == 0
 
 
 def _write_index(index, work: Path) -> Path:
@@ -516,6 +524,7 @@ def _classify(case):
     n = len(case['units'])
     tags = ['header:' + index['header'], 'cols:' + ('+'.join(index['cols']) or 'none'),
             'eol:' + ('crlf' if index['eol'] == '\r\n' else 'lf'), 'route:' + index['route'],
+            'blank-lines:' + str(_blank_lines(index)),
             f'units:{n}']
     if not index['final_eol']:
         tags.append('no-final-eol')
